@@ -89,3 +89,18 @@ func FuzzBytecode(f *testing.F) {
 		evmcheck.CheckCase(t, base, c)
 	})
 }
+
+// TestC16KnownRecreate pins the minimal input of the listed finding undo-code-after-recreate, so that every run shows the
+// matcher explaining exactly this case (and a change of the behaviour shows up as a violation of another kind).
+func TestC16KnownRecreate(t *testing.T) {
+	base := sim.NewEvmBase()
+	// C = [mstore(init code of a child with runtime ff); CREATE; CALL C; CALL C; ...]: every recursion creates the same child again
+	prog := common.FromHex("7f0000000000000000000000000000000000000000000060ff60005360016000f3600052600a60166000f05060006000015060006000600060006000730200000000000000000000000000000000000c025af15060006000600060006000730200000000000000000000000000000000000c025af15060006000015060006000015000")
+	c := &sim.EvmCase{Programs: [][]byte{{0x00}, prog, {}}}
+	c.Calls = []*sim.EvmCall{{Kind: "call", From: base.Senders[0], To: base.Contracts[1], Gas: 3000000, Value: new(big.Int), TxHash: common.BytesToHash([]byte{0xa1})}}
+	p := evmcheck.CheckCase(t, base, c)
+	if len(p.CodeOverwritten) == 0 {
+		t.Fatalf("the pinned case no longer sets code over existing code: the listed finding undo-code-after-recreate does not reproduce any more (remove it from known_findings.json)")
+	}
+	sim.Case("known-recreate", "pinned", true, []string{"pinned-known-finding"}, func() interface{} { return c.Describe() })
+}
